@@ -1062,6 +1062,19 @@ func boundaryConfigs() []gConfig {
 		s := s
 		add(func(i *gIface) { i.maxInterval = s })
 	}
+	// the smallest lifetimes: "non-zero" means 1 ns is in (zero is out), for every lifetime key
+	for _, v := range []string{"0s", "1ns", "2ns", "-1ns"} {
+		for _, p := range []string{"0s", "1ns", "2ns"} {
+			v, p := v, p
+			add(func(i *gIface) {
+				i.prefixes = []gPrefix{{prefix: "2001:db8:0:1::/64", valid: sp(v), preferred: sp(p)}}
+			})
+		}
+		v := v
+		add(func(i *gIface) { i.routes = []gRoute{{prefix: "2001:db8:100::/48", lifetime: sp(v)}} })
+		add(func(i *gIface) { i.rdnss = []gRDNSS{{lifetime: sp(v), servers: []string{"2001:db8::53"}}} })
+		add(func(i *gIface) { i.dnssl = []gDNSSL{{lifetime: sp(v), names: []string{"example.com"}}} })
+	}
 	for _, mx := range []time.Duration{4 * time.Second, 8*time.Second + 999999999, 9 * time.Second, 9*time.Second - 1, 600 * time.Second, 1800 * time.Second, 4500 * time.Millisecond} {
 		mx := mx
 		up := time.Duration(0.75 * float64(mx)).Truncate(time.Second)
